@@ -474,7 +474,6 @@ func judgeX(s *XScript, w *world, exps []expect, v views, round int) (nontrivial
 // judgeView compares one unmarshalled Target with the expectations.  stop:
 // nothing more can be asserted on the Unmarshal views of this round.
 func judgeView(s *XScript, exps []expect, name string, vw view, anyLeak bool) (f *vt.Finding, stop bool) {
-	probe := s.Probe != ""
 	pre := "expand/unmarshal"
 	if strings.HasPrefix(name, "sub") {
 		pre = "expand/sub-unmarshal"
@@ -507,7 +506,7 @@ func judgeView(s *XScript, exps []expect, name string, vw view, anyLeak bool) (f
 		present[e.name] = true
 		got := fieldOf(tv, e.name)
 		var want any
-		skip := false
+		skip, known := false, ""
 		switch e.kind {
 		case "str":
 			want, skip = e.str.project(0), e.res.SEx != ""
@@ -520,6 +519,17 @@ func judgeView(s *XScript, exps []expect, name string, vw view, anyLeak bool) (f
 			want, skip = e.str.project(1), e.res.SEx != "" || e.res.LSEx != "" || e.res.TEx != ""
 		case "mapliststr":
 			want, skip = e.str.project(2), e.res.SEx != "" || e.res.LSEx != "" || e.res.TEx != ""
+			if !skip && e.str.refBelowRoot(2) {
+				// listed finding stringy-container/nested-ref: excluded from the main pass, asserted by the probes
+				if s.Probe == "" {
+					if name == "direct" {
+						cX.Exclude("stringy-container/nested-ref")
+					}
+					skip = true
+				} else {
+					known = "stringy-container/nested-ref"
+				}
+			}
 		case "sub":
 			skip = e.res.SEx != "" || e.res.TEx != ""
 			tm, _ := e.typed.(map[string]any)
@@ -542,6 +552,8 @@ func judgeView(s *XScript, exps []expect, name string, vw view, anyLeak bool) (f
 			sig := pre + "/" + e.kind
 			if leaks(got, "") != "" {
 				sig = "nested-expanded-value/leak"
+			} else if known != "" {
+				sig = known
 			}
 			ff := vt.Failf(sig, "Unmarshal (%s) %s: %v", name, d, s.describe())
 			if !soft(cX, ff, *s) {
